@@ -5,7 +5,10 @@ coq/Gen/T_flex.v by bin/gens_flex.py): what _flex_nodes / _flex_vertices write (
 centred flex, trilinear interpolation with partition-of-unity weights), the exact write list of
 _flex_edges, length = |x_b - x_a|, velocity = J . qvel for the row the kernel stores (sparse = dense),
 velocity = d/dt length for free vertices; the row read with the MODEL's column indices equals the
-velocity only under a layout hypothesis (`_partial`), refuted by a moving-parent witness.
+velocity only under a layout hypothesis (`_partial`), refuted by a moving-parent witness; flex-vs-plane
+broadphase (collision_flex._flex_broadphase_bounds/_flex_broadphase_plane): the AABB contains every vertex
+with radius+margin+gap to spare and the stage-1 box cull is conservative (the task writes nothing iff the
+vertex sphere is not within margin of the plane), for every unit normal.
 
 Tied to /repo on every run: (1) the translated kernels are run inside Coq on TRACED launches of the
 real kernels (1D rope, 2D cloth, 3D tets, trilinear, pinned) and the final buffers compared;
@@ -33,8 +36,11 @@ MANIFEST = {
     "written = stored sparse row . qvel = dense row . qvel with the kernel's implied columns [dofs b1]++[dofs b2]; for "
     "free vertices velocity = (x.xdot)/|x| = d/dt length (real derivative). `_partial`: row read with the model's "
     "flexedge_J_colind equals the velocity only under the layout hypothesis (refuted witness: vertex bodies under a "
-    "moving parent); d/dt length for vertices on articulated bodies. Tested only (oracle vs MuJoCo C on random "
-    "1D/2D/3D/trilinear flex models): passive elasticity/bending forces, flex equality and strain rows, flex contacts."
+    "moving parent); d/dt length for vertices on articulated bodies. Flex-vs-plane broadphase (translated "
+    "_flex_broadphase_bounds/_flex_broadphase_plane): the box contains all vertices inflated by radius+margin+gap and the "
+    "stage-1 cull is conservative for every unit plane normal (task writes nothing iff dist >= margin). Tested only (oracle vs MuJoCo C on random "
+    "1D/2D/3D/trilinear flex models, incl. flexes touching planes tilted into all 8 sign octants, nworld 1 and 2, 5-step "
+    "trajectories): passive elasticity/bending forces, flex equality and strain rows, flex contacts (count, dist, pos, normal)."
   ),
   "note": (
     "bin/gens_flex.py normalises the search-loop idiom (loop-born variable read after the loop) on the AST before the "
@@ -46,7 +52,7 @@ MANIFEST = {
   "engine": "coq",
 }
 
-REQUIRED_KERNELS = ("_flex_nodes", "_flex_vertices", "_flex_edges")
+REQUIRED_KERNELS = ("_flex_nodes", "_flex_vertices", "_flex_edges", "_flex_broadphase_bounds", "_flex_broadphase_plane")
 
 
 # ---------------------------------------------------------------------------------------------
@@ -132,6 +138,7 @@ def kvalidate(res, trk, names):
   import mujoco_warp as mjw
 
   wanted = {fi.pyqual: fi for fi in trk.kernels.values()}
+  kname = {fi.pyqual: k for k, fi in trk.kernels.items()}
   rng = np.random.default_rng(vlib.seed() + 4001)
   cases = []
   for name in names:
@@ -152,14 +159,40 @@ def kvalidate(res, trk, names):
       mjw.com_pos(m, d)
       mjw.flex(m, d)
     for c in t.cases:
-      c["fixture"] = name
-      res.nontrivial(("kv", name, c["qual"].rsplit(".", 1)[-1]))
+      c["fixture"], c["xml"] = name, KV_FIXTURES[name]
+      res.nontrivial(("kv", name, kname[c["qual"]]))
     cases += t.cases
-  seen = {c["qual"].rsplit(".", 1)[-1] for c in cases}
+  # flex-vs-plane broadphase on tilted planes (mixed-sign normals; one touching, one separated = culled at stage 1)
+  for j, (kind, oc) in enumerate((("cube2", (1, -1, 1)), ("cloth", (-1, 1, 1)), ("cube2", (-1, -1, -1)))):
+    for _ in range(20):
+      xml, qpos, qvel, info = tilted_scene(rng, kind, oc)
+      if (j == 2) == (info["depth"] < 0):  # third fixture: separated
+        break
+    mjm = mujoco.MjModel.from_xml_string(xml)
+    mjd = mujoco.MjData(mjm)
+    mjd.qpos[:], mjd.qvel[:] = qpos, qvel
+    mujoco.mj_forward(mjm, mjd)
+    m = mjw.put_model(mjm)
+    d = mjw.put_data(mjm, mjd, nworld=2)
+    q = d.qpos.numpy()
+    q[1] += (0.002 * rng.standard_normal(mjm.nq)).astype(np.float32)
+    wp.copy(d.qpos, wp.array(q, dtype=float))
+    mjw.kinematics(m, d)
+    mjw.com_pos(m, d)
+    mjw.flex(m, d)
+    with ktrace.Tracer(wanted, per_kernel=1) as t:
+      mjw.collision(m, d)
+    for c in t.cases:
+      c["fixture"], c["xml"] = f"tilted_{kind}_{j}", xml
+      res.nontrivial(("kv", c["fixture"], kname[c["qual"]], int(d.nacon.numpy()[0])))
+    cases += t.cases
+    if t.skipped:
+      res.notes.append(f"kernel validation tilted_{kind}_{j}: skipped {t.skipped}")
+  seen = {kname[c["qual"]] for c in cases}
   res.obligation("kernel validation traced every translated flex kernel", all(k in seen for k in REQUIRED_KERNELS), f"traced: {sorted(seen)}")
   verdicts = kvalid.run_cases(res, "C40k", "Gen.T_flex", cases, tol=2e-4)
   res.extra["kernel_validation"] = {"cases": len(cases), "agree": verdicts.count(0), "discarded": verdicts.count(1), "disagree": verdicts.count(2)}
-  return [{"fixture": cases[i]["fixture"], "kernel": cases[i]["qual"], "xml": KV_FIXTURES[cases[i]["fixture"]]} for i, vv in enumerate(verdicts) if vv == 2]
+  return [{"fixture": cases[i]["fixture"], "kernel": cases[i]["qual"], "xml": cases[i]["xml"]} for i, vv in enumerate(verdicts) if vv == 2]
 
 
 # ---------------------------------------------------------------------------------------------
@@ -276,6 +309,9 @@ def _family(name, rng):
   if name == "probe_contact_rope_sphere":
     return _mj(f'<worldbody><geom type="sphere" size=".1" pos="{r(-.1, .1):.3g} 0 0"/>'
                f'<flexcomp name="f" type="grid" count="5 1 1" spacing=".08 .08 .08" dim="1" mass="1" radius=".02" pos="0 0 {r(.1, .115):.3g}"><contact selfcollide="none"/><edge equality="true"/></flexcomp></worldbody>')  # fmt: skip
+  if name == "probe_rope_vertex_on_sphere":  # the middle vertex of a straight rope presses on the top of a sphere
+    return _mj('<option timestep="0.002"/><worldbody><geom type="sphere" size=".1" pos="0 0 0"/>'
+               f'<flexcomp name="f" type="grid" count="5 1 1" spacing=".08 .08 .08" dim="1" mass="1" radius=".02" pos="0 0 {0.12 - r(.003, .008):.4g}"><contact selfcollide="none"/><edge equality="true"/></flexcomp></worldbody>')  # fmt: skip
   if name == "probe_rope_geom_on_vertex_body":  # collidable geoms on the vertex bodies of a 1D flex
     sl = lambda nm, x: _slides(nm, x).replace('contype="0" conaffinity="0"', "")  # noqa: E731
     return _mj(f'<worldbody>{sl("a", 0)}{sl("b", .1)}{sl("c", .2)}</worldbody>'
@@ -299,8 +335,132 @@ PROBES = {
   "probe_rope_geom_on_vertex_body": ("flex_geom_vertex:own-body-geom", {"contact_count"}),
   "probe_contact_cloth_big_sphere": ("flex_contact:coincident-contacts-merged", {"contact_duplicates_merged"}),
   "probe_contact_rope_sphere": ("flex_contact:1d-vertex-only", {"contact_count", "contact_dist", "contact_pos", "contact_duplicates_merged"}),
+  "probe_rope_vertex_on_sphere": ("flex_contact:1d-vertex-only", {"contact_count", "contact_dist", "contact_pos", "contact_duplicates_merged"}),
 }
+# families of 1D flexes against geoms: a contact that MJWarp and MuJoCo both report (same dist and pos) but with
+# opposite normals is one root cause whatever the family
+ROPE_GEOM_FAMILIES = ("probe_contact_rope_sphere", "probe_rope_vertex_on_sphere")
 PROBE_FAMILIES = list(PROBES)
+
+
+# ---------------------------------------------------------------------------------------------
+# flex resting with a corner in a TILTED plane (normals in all eight sign octants)
+# ---------------------------------------------------------------------------------------------
+OCTANTS = [(sx, sy, sz) for sx in (1, -1) for sy in (1, -1) for sz in (1, -1)]
+
+
+def _tilted_xml(kind, ppos, normal, fmargin, gmargin, euler):
+  plane = f'<geom name="plane" type="plane" size="2 2 .1" pos="{ppos[0]:.9f} {ppos[1]:.9f} {ppos[2]:.9f}" zaxis="{normal[0]:.9f} {normal[1]:.9f} {normal[2]:.9f}" margin="{gmargin}"/>'
+  con = f'<contact selfcollide="none" internal="false" margin="{fmargin}"/>'
+  eu = f'euler="{euler[0]:.4g} {euler[1]:.4g} {euler[2]:.4g}"'
+  if kind == "cube":
+    flex = f'<flexcomp name="f" type="grid" count="3 3 3" spacing=".1 .1 .1" pos="0 0 1" {eu} radius=".005" dim="3" mass="1">{con}<elasticity young="1e4" poisson="0.2" damping="0.01"/></flexcomp>'
+  elif kind == "cube2":
+    flex = f'<flexcomp name="f" type="grid" count="2 2 2" spacing=".15 .1 .2" pos="0 0 1" {eu} radius=".01" dim="3" mass="1">{con}<elasticity young="1e4" poisson="0.2" damping="0.01"/></flexcomp>'
+  else:  # cloth, rotated out of every coordinate plane
+    flex = f'<flexcomp name="f" type="grid" count="4 3 1" spacing=".1 .1 .1" pos="0 0 1" {eu} radius=".008" dim="2" mass="1">{con}<edge equality="true"/></flexcomp>'
+  return _mj(f'<option timestep="0.002"/><worldbody>{plane}{flex}</worldbody>')
+
+
+def tilted_scene(rng, kind, octant):
+  """(xml, qpos, qvel, info): the deepest vertex sphere penetrates the plane by `depth` (or stays `-depth` away)."""
+  import mujoco
+
+  a = rng.uniform(0.25, 1.0, 3) * np.array(octant, dtype=float)
+  if rng.random() < 0.25:
+    a[int(rng.integers(0, 2))] = 0.0  # one zero component now and then
+  n = a / np.linalg.norm(a)
+  euler = rng.uniform(-50, 50, 3) if kind == "cloth" else rng.uniform(-15, 15, 3) * (rng.random() < 0.5)
+  fmargin = float(rng.choice([0.0, 0.0, 0.005]))
+  gmargin = float(rng.choice([0.0, 0.003]))
+  depth = float(rng.uniform(0.002, 0.008)) if rng.random() < 0.8 else -float(rng.uniform(0.004, 0.02) + fmargin + gmargin)
+  m0 = mujoco.MjModel.from_xml_string(_tilted_xml(kind, (0, 0, -50), (0, 0, 1), fmargin, gmargin, euler))
+  d0 = mujoco.MjData(m0)
+  _state(rng, m0, d0, 0.002, 0.05)
+  mujoco.mj_kinematics(m0, d0)
+  mujoco.mj_flex(m0, d0)
+  radius = float(m0.flex_radius[0])
+  low = float(np.min(d0.flexvert_xpos @ n))
+  ppos = n * (low - radius + depth)
+  xml = _tilted_xml(kind, ppos, n, fmargin, gmargin, euler)
+  return xml, d0.qpos.copy(), d0.qvel.copy(), {"normal": n.tolist(), "depth": depth, "flex_margin": fmargin, "geom_margin": gmargin, "kind": kind}
+
+
+def oracle_tilted(res, nper, nstep):
+  """Contacts (count, dist, pos, normal), kinematics and a short trajectory vs MuJoCo C, nworld 1 and 2,
+  for cube / box / rotated cloth flexes whose corner touches a plane with a normal in every sign octant."""
+  import mujoco
+  import warp as wp
+
+  import mjcmp
+  import mujoco_warp as mjw
+
+  fails = []
+  st = {"scenes": 0, "states": 0, "skipped_margin": 0, "with_contact": 0, "mixed_sign_normal": 0, "trajectories": 0}
+  rng = np.random.default_rng(vlib.seed() + 4700)
+  kinds = ["cube", "cloth", "cube2"]
+  k = 0
+  for oc in OCTANTS:
+    for rep in range(nper):
+      kind = kinds[k % 3]
+      k += 1
+      for attempt in range(6):
+        xml, qpos, qvel, info = tilted_scene(rng, kind, oc)
+        mjm = mujoco.MjModel.from_xml_string(xml)
+        mjds = []
+        for w in range(2):  # world 1: the same scene nudged a little
+          mjd = mujoco.MjData(mjm)
+          mjd.qpos[:] = qpos + (0.0005 * rng.standard_normal(mjm.nq) if w else 0.0)
+          mjd.qvel[:] = qvel * (1.0 if w == 0 else -0.5)
+          mujoco.mj_forward(mjm, mjd)
+          mjds.append(mjd)
+        if all(contact_margin_ok(mjm, x) for x in mjds):
+          break
+        st["skipped_margin"] += 1
+      else:
+        continue
+      st["scenes"] += 1
+      nn = np.array(info["normal"])
+      st["mixed_sign_normal"] += int(np.any(nn > 1e-9) and np.any(nn < -1e-9))
+      m = mjw.put_model(mjm)
+      for nworld in (1, 2):
+        d = mjw.put_data(mjm, mjds[0], nworld=nworld)
+        if nworld == 2:
+          q = d.qpos.numpy()
+          q[1] = mjds[1].qpos
+          v = d.qvel.numpy()
+          v[1] = mjds[1].qvel
+          wp.copy(d.qpos, wp.array(q, dtype=float))
+          wp.copy(d.qvel, wp.array(v, dtype=float))
+        d.flexedge_J.zero_()
+        mjw.forward(m, d)
+        for w in range(nworld):
+          res.count()
+          st["states"] += 1
+          st["with_contact"] += int(mjds[w].ncon > 0)
+          res.nontrivial(("tilted", kind, oc, nworld, w, int(mjds[w].ncon)))
+          diffs = compare(mjm, mjds[w], m, d, w)
+          if diffs:
+            fails.append({"family": f"contact_tilted_plane_{kind}", "first": diffs[0][0], "diffs": [f"{g}: {t}" for g, t in diffs], "n_layout_violations": 0, "layout_hypothesis_violations": [],
+                          "xml": xml, "qpos": mjds[w].qpos.tolist(), "qvel": mjds[w].qvel.tolist(), "nworld": nworld, "world": w, "scene": info})  # fmt: skip
+        if nworld == 1 and nstep and not fails:
+          # short trajectory: without the contact rows the corner keeps sinking (seeded change C40-1: 3e-4 after 5 steps);
+          # float32 vs float64 over 5 steps of 2 ms stays below 2e-5 on the unchanged tree (measured, see evidence)
+          ref = mujoco.MjData(mjm)
+          ref.qpos[:] = mjds[0].qpos
+          ref.qvel[:] = mjds[0].qvel
+          for _ in range(nstep):
+            mujoco.mj_step(mjm, ref)
+            mjw.step(m, d)
+          dq = float(np.max(np.abs(d.qpos.numpy()[0] - ref.qpos)))
+          st["trajectories"] += 1
+          st["max_traj_err"] = max(st.get("max_traj_err", 0.0), dq)
+          res.count()
+          if dq > 1e-4:
+            fails.append({"family": f"contact_tilted_plane_{kind}", "first": "trajectory_qpos", "diffs": [f"trajectory_qpos: max |qpos - MuJoCo| after {nstep} steps = {dq:.3e}"], "n_layout_violations": 0,
+                          "layout_hypothesis_violations": [], "xml": xml, "qpos": mjds[0].qpos.tolist(), "qvel": mjds[0].qvel.tolist(), "nworld": 1, "world": 0, "scene": info, "steps": nstep})  # fmt: skip
+  res.extra.setdefault("oracle", {})["contact_tilted_plane"] = st
+  return fails, st
 
 
 def _dense(rownnz, rowadr, colind, J, nv):
@@ -407,30 +567,36 @@ def compare(mjm, mjd, m, d, w=0):
   sel = d.contact.worldid.numpy()[:na] == w
   dw, xw = d.contact.dist.numpy()[:na][sel].astype(np.float64), d.contact.pos.numpy()[:na][sel].astype(np.float64)
   dc, xc = np.asarray(mjd.contact.dist, dtype=np.float64), np.asarray(mjd.contact.pos, dtype=np.float64).reshape(-1, 3)
+  # contact normal = first row of the contact frame
+  xw = np.concatenate([xw, d.contact.frame.numpy()[:na][sel][:, 0, :].astype(np.float64).reshape(-1, 3)], axis=1)
+  xc = np.concatenate([xc, np.asarray(mjd.contact.frame, dtype=np.float64).reshape(-1, 9)[:, :3]], axis=1)
 
   def canon(dd, xx):
     if len(dd) == 0:
-      return np.zeros((0, 4))
+      return np.zeros((0, 7))
     a = np.concatenate([dd[:, None], xx], axis=1)
     return a[np.lexsort((a[:, 3].round(3), a[:, 2].round(3), a[:, 1].round(3), a[:, 0].round(4)))]
 
   def merged(a):  # merge coincident contacts (same dist to 1e-4 and position to 1e-3)
     keep = []
     for r_ in a:
-      if not any(abs(r_[0] - q[0]) < 1e-4 and np.linalg.norm(r_[1:] - q[1:]) < 1e-3 for q in keep):
+      if not any(abs(r_[0] - q[0]) < 1e-4 and np.linalg.norm(r_[1:4] - q[1:4]) < 1e-3 for q in keep):
         keep.append(r_)
-    return np.array(keep).reshape(-1, 4)
+    return np.array(keep).reshape(-1, 7)
 
   cw, cc = canon(dw, xw), canon(dc, xc)
   if len(cw) == len(cc):
     if len(cw):
       chk("contact_dist", cw[:, 0], cc[:, 0], 1e-4)
-      chk("contact_pos", cw[:, 1:], cc[:, 1:], 2e-3)
+      chk("contact_pos", cw[:, 1:4], cc[:, 1:4], 2e-3)
+      if not any(g in ("contact_dist", "contact_pos") for g, _ in out):  # same pairing: normals comparable
+        chk("contact_normal", cw[:, 4:], cc[:, 4:], 1e-3)
   else:
     mc = merged(cc)
-    same = len(mc) == len(cw) and (len(cw) == 0 or (np.max(np.abs(mc[:, 0] - cw[:, 0])) < 2e-4 and np.max(np.abs(mc[:, 1:] - cw[:, 1:])) < 2e-3))
+    same = len(mc) == len(cw) and (len(cw) == 0 or (np.max(np.abs(mc[:, 0] - cw[:, 0])) < 2e-4 and np.max(np.abs(mc[:, 1:4] - cw[:, 1:4])) < 2e-3))
     if same:
       out.append(("contact_duplicates_merged", f"{len(cw)} contacts vs MuJoCo {len(cc)}; equal after merging MuJoCo's coincident contacts"))
+      chk("contact_normal", cw[:, 4:], mc[:, 4:], 1e-3)
     else:
       out.append(("contact_count", f"{len(cw)} contacts vs MuJoCo {len(cc)} ({len(mc)} after merging coincident ones)"))
   # qacc: downstream summary (ill-conditioned with stiff elasticity: the repo's own multiflex test uses atol 5e-2)
@@ -488,7 +654,7 @@ def oracle(res, families, nmodels, nstates, probe):
         if done >= nstates:
           break
         mjd = mujoco.MjData(mjm)
-        small = "contact" in fam
+        small = "contact" in fam or fam == "probe_rope_vertex_on_sphere"
         _state(rng, mjm, mjd, (0.002 if fam == "contact_cloth_small_geom" else 0.03) if small else 0.05, 0.1)
         mujoco.mj_forward(mjm, mjd)
         if (small or fam == "probe_rope_geom_on_vertex_body") and not contact_margin_ok(mjm, mjd):
@@ -516,7 +682,7 @@ def run(res):
   ok, trs, failing = propkit.prove(res, "Props/C40.v", gen_names=["T_flex"])
   trk = trs.get("T_flex")
   tr_ok = trk is not None and all(k in trk.kernels for k in REQUIRED_KERNELS)
-  res.obligation("translate: smooth._flex_nodes/_flex_vertices/_flex_edges are inside the Gallina model", tr_ok, json.dumps(getattr(trk, "errors", {}))[:400])
+  res.obligation("translate: smooth._flex_nodes/_flex_vertices/_flex_edges and collision_flex._flex_broadphase_bounds/_flex_broadphase_plane are inside the Gallina model", tr_ok, json.dumps(getattr(trk, "errors", {}))[:400])
   if trk is not None:
     res.extra["translation"] = {"kernels": sorted(trk.kernels), "not_translated_optional": getattr(trk, "optional_errors", {}), "rewrites": {k: fi.notes for k, fi in trk.kernels.items()}}
     # _flex_edges never reads the model's column indices (parameter present, unused): recorded for the reader of the theorems
@@ -530,14 +696,22 @@ def run(res):
   nm, ns = (2, 2) if quick else (12, 6)
   fails = oracle(res, BASE_FAMILIES, nm, ns, probe=False)
   pfails = oracle(res, PROBE_FAMILIES, nm, ns, probe=True)
-  res.obligation("oracle ran on every family", all(v["states"] > 0 or v["rejected"] > 0 for v in res.extra["oracle"].values()), json.dumps(res.extra["oracle"]))
+  tfails, tst = oracle_tilted(res, 1 if quick else 6, 5)
+  fails = fails + tfails
+  res.obligation("tilted-plane oracle covered mixed-sign normals with contacts, nworld 1 and 2, and trajectories",
+                 tst["mixed_sign_normal"] >= 4 and tst["with_contact"] >= 8 and tst["trajectories"] >= 4, json.dumps(tst))
+  res.obligation("oracle ran on every family", all(v["states"] > 0 or v.get("rejected", 0) > 0 for v in res.extra["oracle"].values()), json.dumps(res.extra["oracle"]))
   # failing inputs that are NOT already recorded findings: only those can explain a broken proof / correspondence
   known = {k["key"] for k in vlib.load_known().get("findings", []) if k.get("property") == res.pid}
   seen = set()
   for f in fails + pfails:
     site, expected = PROBES.get(f["family"], (None, ()))
     key = f"C40:{site if f['first'] in expected else f['first']}:{f['family']}"
-    if f["first"] == "contact_duplicates_merged" and site != "flex_contact:1d-vertex-only":
+    if "contact_normal" in [x.split(":")[0] for x in f["diffs"]] and f["family"] in ROPE_GEOM_FAMILIES:
+      key = "C40:flex_geom_vertex:normal-reversed"
+    elif f["family"] in ROPE_GEOM_FAMILIES and f["first"] in expected:
+      key = "C40:flex_contact:1d-vertex-only:probe_contact_rope_sphere"  # one documented deviation, one recorded key
+    elif f["first"] == "contact_duplicates_merged" and site != "flex_contact:1d-vertex-only":
       # one root cause whatever the family: MJWarp merges coincident element contacts (documented in flex_test.py)
       key = "C40:flex_contact:coincident-contacts-merged"
     if key in seen:
@@ -580,4 +754,16 @@ def replay(res, path):
   for g, t in diffs:
     print(f"DISAGREE {g}: {t}")
   print("layout hypothesis violations:", len(layout_report(mjm)))
+  if r.get("steps"):
+    ref = mujoco.MjData(mjm)
+    ref.qpos[:] = r["qpos"]
+    ref.qvel[:] = r["qvel"]
+    d = mjw.put_data(mjm, ref)
+    for _ in range(int(r["steps"])):
+      mujoco.mj_step(mjm, ref)
+      mjw.step(m, d)
+    dq = float(np.max(np.abs(d.qpos.numpy()[0] - ref.qpos)))
+    print(f"trajectory: max |qpos - MuJoCo| after {r['steps']} steps = {dq:.3e}")
+    if dq > 1e-4:
+      diffs.append(("trajectory_qpos", dq))
   return 1 if diffs else 0
